@@ -281,6 +281,12 @@ main(int argc, char **argv)
 		if (vf_below(&r, 2) == 0) { cfg.vmin = 0x0301; cfg.vmax = 0x0303; }
 		vf_distinct("version_shape", "%04x b%04x-%04x client%d kx%d", pv->version, cfg.vmin, cfg.vmax, b_is_client, pv->s->kx);
 		cfg.keykind = keykind;
+		/* a third of the BearSSL clients pad their ClientHello (RFC 7685): lengths around what such a hello has by
+		   itself (about 100-230 bytes) and the customary 256 / 512; OpenSSL parses the padding extension */
+		if (b_is_client && (idx % 3) == 1) {
+			cfg.min_ch_len = (idx / 3) % 4 == 3 ? (unsigned)(256 << ((idx / 12) & 1)) : 90 + (unsigned)((idx / 3) * 7 % 150);
+			vf_stat("ossl_padded_clienthello_sessions", 1);
+		}
 		vf_bytes(&r, cfg.seed, 32);
 		b_total = 1 + vf_below(&r, (uint32_t)(frag > 4096 ? 20000 : 3 * frag));
 		o_total = 1 + vf_below(&r, (uint32_t)(frag > 4096 ? 20000 : 3 * frag));
